@@ -41,7 +41,9 @@ Definition msigs_ok (es : list enum_def) (sigs : list signal) : Prop :=
   (forall a b, In a sigs -> In b sigs -> is_muxb a = true -> is_muxb b = true -> a = b) /\
   (forall c, In c sigs -> is_topb c = false -> exists mx, In mx sigs /\ is_topb mx = true /\ is_muxb mx = true /\ child_ok mx c) /\
   (forall c c', In c sigs -> In c' sigs -> is_topb c = false -> is_topb c' = false -> c <> c' -> grp c = grp c' ->
-     s_rel c + s_size c <= s_rel c' \/ s_rel c' + s_size c' <= s_rel c).
+     s_rel c + s_size c <= s_rel c' \/ s_rel c' + s_size c' <= s_rel c) /\
+  (* a message that holds a multiplexer holds standard signals besides it *)
+  (forall mx t, In mx sigs -> is_muxb mx = true -> In t sigs -> is_muxb t = false -> s_kind t = KStandard).
 
 Definition mmessage (es : list enum_def) (node_names : list string) (m : message) : Prop :=
   m_attrs m = [] /\ m_cycle m = 0 /\ m_delay m = 0 /\ m_startdelay m = 0 /\
@@ -405,3 +407,338 @@ Proof.
   rewrite H0. destruct (Hnodes (b_nodes b) (opt_cm (b_desc b) (mkdcomment OGeneral (b_desc b) EmptyString 0 EmptyString)) [] [] [] Hn) as [L1 E].
   exists L1. cbv zeta. cbv zeta in E. rewrite E, Hg. cbn. reflexivity.
 Qed.
+
+(* ---------------- import: helpers ---------------- *)
+Lemma index_from_app : forall {A} (a b : list A) i, index_from i (a ++ b) = index_from i a ++ index_from (i + Z.of_nat (length a)) b.
+Proof.
+  intros A a. induction a as [|x r IH]; intros b i; cbn [app index_from length]; [f_equal; lia|].
+  rewrite IH. f_equal. f_equal. f_equal. lia.
+Qed.
+
+Definition std_imp (env : ienv) (msgid id : Z) (ds : dsignal) : signal :=
+  mksignal id (ds_name ds) KStandard 0 None [] (ds_size ds) (ds_signed ds) (ds_factor ds) (ds_offset ds) (ds_min ds) (ds_max ds)
+           (ds_unit ds) 0 0 0 (desc_of key_eqb (msgid, ds_name ds) (ie_sig_desc env)) fl_zero 0 [].
+
+Lemma import_signal_std : forall env st mpos msgid id ds,
+  lookup key_eqb (msgid, ds_name ds) (ie_sig_enums env) = None -> 0 < ds_size ds ->
+  import_signal env st mpos msgid id ds
+  = Ok (std_imp env msgid id ds, set_sigmap st (((msgid, ds_name ds), (mpos, id)) :: is_sigmap st)).
+Proof.
+  intros env st mpos msgid id ds Hl Hs. unfold import_signal. rewrite Hl. unfold import_standard.
+  replace (ds_size ds <=? 0) with false by lia. cbn [bind]. unfold std_imp, desc_of.
+  destruct (lookup key_eqb (msgid, ds_name ds) (ie_sig_desc env)); reflexivity.
+Qed.
+
+(* the filters of one group give back the children *)
+Lemma filter_partition_perm : forall {A} (p q : A -> bool) l, (forall x, In x l -> p x && q x = false) ->
+  Permutation (filter p l ++ filter q l) (filter (fun x => p x || q x) l).
+Proof.
+  intros A p q l. induction l as [|x r IH]; intros H; cbn [filter app]; [constructor|].
+  specialize (IH (fun y Hy => H y (or_intror Hy))). pose proof (H x (or_introl eq_refl)) as Hx.
+  destruct (p x) eqn:Ep, (q x) eqn:Eq; cbn [orb app]; try discriminate Hx.
+  - constructor. exact IH.
+  - eapply Permutation_trans; [apply Permutation_sym, Permutation_middle|]. constructor. exact IH.
+  - exact IH.
+Qed.
+
+Lemma walk_perm : forall (g : signal -> Z) (K : list signal) n,
+  Permutation (flat_map (fun id => filter (fun c => id =? g c) K) (zrange 0 n))
+              (filter (fun c => (0 <=? g c) && (g c <? Z.of_nat n)) K).
+Proof.
+  intros g K n. induction n as [|n IH].
+  - cbn [zrange flat_map]. rewrite (Proofs.filter_nil); [constructor|]. intros c _. lia.
+  - rewrite zrange_snoc, flat_map_app. cbn [flat_map]. rewrite app_nil_r.
+    eapply Permutation_trans; [apply Permutation_app_tail; exact IH|].
+    eapply Permutation_trans; [apply filter_partition_perm; intros x _; lia|].
+    erewrite filter_ext; [apply Permutation_refl|]. intros c. cbn beta. lia.
+Qed.
+
+Lemma dedup_str_nodup_id : forall l seen, NoDup l -> (forall x, In x l -> ~ In x seen) -> dedup_str seen l = l.
+Proof.
+  induction l as [|x r IH]; intros seen Hnd Hs; cbn [dedup_str]; [reflexivity|]. inversion Hnd as [|? ? Hni Hr]; subst.
+  rewrite (not_in_mem_str x seen) by (apply Hs; left; reflexivity). f_equal. apply IH; [assumption|].
+  intros y Hy [Hy'|Hy']; [subst; contradiction|]. apply (Hs y); [right; assumption|assumption].
+Qed.
+
+Lemma msg_insert_ok_g : forall es msize done s below start,
+  ~ In (s_name s) (map s_name done) -> (forall x, In x below -> ~ In (s_name x) (map s_name done)) ->
+  NoDup (map s_name (s :: below)) ->
+  0 <= start -> 0 < sig_size es s -> start + sig_size es s <= msize * 8 ->
+  (forall d, In d done -> is_topb d = true ->
+     overlaps start (start + sig_size es s) (s_rel d) (s_rel d + sig_size es d) = false) ->
+  msg_insert es msize done (s, below) start = Ok (done ++ [place s start None []] ++ below).
+Proof.
+  intros es msize done s below start Hf Hb Hnd H0 Hs Hl Hd. unfold msg_insert.
+  rewrite (not_in_mem_str _ _ Hf).
+  replace (existsb (fun x => mem_str (s_name x) (map s_name done)) below) with false.
+  2:{ symmetry. destruct (existsb _ below) eqn:E; [|reflexivity]. apply existsb_exists in E. destruct E as [x [Hx Hm]].
+      apply Proofs.mem_str_true_in in Hm. exfalso. apply (Hb x Hx Hm). }
+  rewrite dedup_str_nodup_id by (try assumption; intros x _ []). rewrite map_length, Nat.eqb_refl. cbn [negb].
+  unfold verify_insert. replace (start <? 0) with false by lia. replace (sig_size es s >? msize * 8) with false by lia.
+  replace (start + sig_size es s >? msize * 8) with false by lia.
+  replace (existsb _ (filter _ done)) with false; [reflexivity|].
+  symmetry. destruct (existsb _ (filter _ done)) eqn:E; [|reflexivity]. apply existsb_exists in E. destruct E as [d [Hin Ho]].
+  apply filter_In in Hin. destruct Hin as [Hin Ht]. rewrite (Hd d Hin) in Ho; [discriminate|]. exact Ht.
+Qed.
+
+Lemma gsb : forall ds o p, ds_order ds = o -> ds_start ds = dbc_start_bit p o -> 0 <= p < 2 ^ 31 -> get_start_bit ds = p.
+Proof.
+  intros ds o p Ho Hs H. unfold get_start_bit. rewrite Ho, Hs. unfold dbc_start_bit. destruct o.
+  - apply u32_id. lia.
+  - rewrite u32_id by lia.
+    destruct (Proofs.start_bit_inverse BigEndian p ltac:(lia)) as [H1 _].
+    unfold pos_of_dbc, dbc_of_pos in H1. exact H1.
+Qed.
+
+Lemma layout_pairwise : forall es l from lim, Forall (top_ok es) l -> layout_e es from lim l ->
+  (forall a, In a l -> from <= s_rel a /\ s_rel a + sig_size es a <= lim) /\
+  (forall a b, In a l -> In b l -> a <> b -> s_rel a + sig_size es a <= s_rel b \/ s_rel b + sig_size es b <= s_rel a).
+Proof.
+  intros es l. induction l as [|x r IH]; intros from lim Hp H; [split; [intros a []|intros a b []]|].
+  cbn [layout_e] in H. destruct H as [H1 [H2 H3]]. inversion Hp as [|? ? Hx Hr]; subst.
+  pose proof (top_size_pos es x Hx) as Hpos.
+  destruct (IH _ _ Hr H3) as [I1 I2]. split.
+  - intros a [<-|Ha]; [lia|]. destruct (I1 a Ha). lia.
+  - intros a b [<-|Ha] [<-|Hb] Hne.
+    + contradiction.
+    + left. destruct (I1 b Hb). lia.
+    + right. destruct (I1 a Ha). lia.
+    + apply I2; assumption.
+Qed.
+
+Section MuxImport.
+  Variables (es : list enum_def) (env : ienv) (mpos : nat) (m : message) (mx : signal) (names : list string).
+  Hypothesis Hmm : mmessage es names m.
+  Hypothesis Hmx : In mx (m_signals m).
+  Hypothesis Hmxm : is_muxb mx = true.
+  Let sigs := m_signals m.
+  Let msgid := u32 (m_canid m).
+  Let o := m_order m.
+  Let recs := recs_out m.
+  Let selw := sel_width mx.
+  Let mstart := s_rel mx.
+  Hypothesis Henv : forall s, In s sigs -> is_muxb s = false ->
+    lookup key_eqb (msgid, clear (s_name s)) (ie_sig_enums env) = None /\
+    desc_of key_eqb (msgid, clear (s_name s)) (ie_sig_desc env) = s_desc s.
+  Hypothesis Henvx : desc_of key_eqb (msgid, clear (s_name mx)) (ie_sig_desc env) = s_desc mx.
+  Hypothesis Hext : ie_ext_muxes env = [].
+
+  Definition img (s : signal) : dsignal :=
+    if is_muxb s then mux_dsig o recs s
+    else if is_topb s then dsig_e es o recs s
+    else child_dsig o recs mx (u32 (grp s)) s.
+
+  Let Hms : msigs_ok es sigs. Proof. destruct Hmm as [_ [_ [_ [_ [_ [_ [_ [H _]]]]]]]]. exact H. Qed.
+
+  Lemma mx_top : top_ok es mx /\ is_topb mx = true.
+  Proof.
+    destruct Hms as [_ [_ [Htops [_ [Hch _]]]]].
+    destruct (is_topb mx) eqn:Et.
+    - split; [|reflexivity]. rewrite Forall_forall in Htops. apply Htops. apply filter_In. auto.
+    - exfalso. destruct (Hch mx Hmx Et) as [p [_ [_ [_ [Hk _]]]]]. unfold is_muxb in Hmxm. rewrite Hk in Hmxm. discriminate.
+  Qed.
+
+  (* what is known of a signal that is not the multiplexer *)
+  Lemma other_sig : forall s, In s sigs -> s <> mx ->
+    is_muxb s = false /\ s_kind s = KStandard /\
+    ((is_topb s = true /\ top_ok es s) \/ (is_topb s = false /\ child_ok mx s)).
+  Proof.
+    intros s Hs Hne. destruct Hms as [_ [_ [Htops [Huniq [Hch [_ Hstd]]]]]].
+    assert (Hnm : is_muxb s = false).
+    { destruct (is_muxb s) eqn:E; [|reflexivity]. exfalso. apply Hne. apply Huniq; assumption. }
+    split; [assumption|]. split; [exact (Hstd mx s Hmx Hmxm Hs Hnm)|].
+    destruct (is_topb s) eqn:Et.
+    - left. split; [reflexivity|]. rewrite Forall_forall in Htops. apply Htops. apply filter_In. auto.
+    - right. split; [reflexivity|]. destruct (Hch s Hs Et) as [p [Hp [_ [Hpm Hok]]]].
+      rewrite (Huniq mx p Hmx Hp Hmxm Hpm). exact Hok.
+  Qed.
+
+  (* ---- the first loop: every signal but the switch is imported ---- *)
+  Variable mid : Z.
+  Definition ent (p : Z * signal) : subtree * dsignal := ((std_imp env msgid (fst p) (img (snd p)), []), img (snd p)).
+  Definition childp (p : Z * signal) : bool := negb (is_topb (snd p)).
+  Definition plainp (p : Z * signal) : bool := is_topb (snd p) && negb (is_muxb (snd p)).
+  Definition last_of (la : Z) (Xl : list (Z * signal)) : Z :=
+    fold_left (fun a p => if childp p then (if get_start_bit (img (snd p)) >? a then get_start_bit (img (snd p)) else a) else a) Xl la.
+
+  Lemma img_fields : forall s, In s sigs -> s <> mx ->
+    ds_name (img s) = clear (s_name s) /\ ds_size (img s) = s_size s /\ ds_muxed (img s) = negb (is_topb s) /\ ds_muxor (img s) = false.
+  Proof.
+    intros s Hs Hne. destruct (other_sig s Hs Hne) as [Hnm [Hk Hc]]. unfold img. rewrite Hnm.
+    destruct Hc as [[Ht [_ [_ [_ [_ [_ [_ Hsz]]]]]]]|[Ht [_ [_ [_ [_ [_ [_ [_ [Hsz _]]]]]]]]]]; rewrite Ht; rewrite ?Hk in Hsz.
+    - unfold dsig_e. rewrite Hk. cbn [dsig_of ds_name ds_size ds_muxed ds_muxor negb]. rewrite u32_id by lia. auto.
+    - cbn [child_dsig ds_name ds_size ds_muxed ds_muxor negb]. rewrite u32_id by lia. auto.
+  Qed.
+
+  Definition f1 (acc : result (istate * list (subtree * dsignal) * list (subtree * dsignal) * Z)) (p : Z * dsignal) :=
+    let '(id, ds) := p in
+    do (st0, muxed, stds, last) <- acc;
+    if id =? mid then Ok (st0, muxed, stds, last) else
+    do (s, st1) <- import_signal env st0 mpos msgid id ds;
+    let sp := get_start_bit ds in
+    if ds_muxed ds
+    then Ok (st1, muxed ++ [((s, []), ds)], stds, if sp >? last then sp else last)
+    else Ok (st1, muxed, stds ++ [((s, []), ds)], last).
+
+  Lemma loop1 : forall Xl st mu sd la,
+    (forall p, In p Xl -> In (snd p) sigs /\ (fst p = mid <-> snd p = mx)) ->
+    exists st',
+      fold_left f1 (map (fun p => (fst p, img (snd p))) Xl) (Ok (st, mu, sd, la))
+      = Ok (st', mu ++ map ent (filter childp Xl), sd ++ map ent (filter plainp Xl), last_of la Xl) /\
+      is_enums st' = is_enums st /\ is_enum_refs st' = is_enum_refs st.
+  Proof.
+    induction Xl as [|[id s] r IH]; intros st mu sd la HX; cbn [map fold_left filter last_of].
+    - exists st. rewrite !app_nil_r. auto.
+    - destruct (HX (id, s) (or_introl eq_refl)) as [Hs Hmid]. cbn [fst snd] in Hs, Hmid.
+      assert (HXr : forall p, In p r -> In (snd p) sigs /\ (fst p = mid <-> snd p = mx)) by (intros p Hp; apply HX; right; assumption).
+      unfold f1 at 2. cbn [bind fst snd].
+      destruct (id =? mid) eqn:Em.
+      + apply Z.eqb_eq in Em. assert (s = mx) by (apply Hmid; assumption). subst s.
+        destruct mx_top as [_ Ht]. unfold childp, plainp. cbn [snd]. rewrite Ht, Hmxm. cbn [negb andb].
+        destruct (IH st mu sd la HXr) as [st' [E1 E2]]. exists st'. split; [exact E1|exact E2].
+      + assert (Hne : s <> mx) by (intros ->; apply Z.eqb_neq in Em; apply Em; apply Hmid; reflexivity).
+        destruct (other_sig s Hs Hne) as [Hnm [Hk Hc]]. destruct (img_fields s Hs Hne) as [F1 [F2 [F3 F4]]].
+        destruct (Henv s Hs Hnm) as [He1 He2].
+        rewrite import_signal_std.
+        2:{ rewrite F1. exact He1. }
+        2:{ rewrite F2. destruct Hc as [[_ Htop]|[_ Hch]].
+            - destruct Htop as [_ [_ [_ [_ [_ [_ Hsz]]]]]]. rewrite Hk in Hsz. lia.
+            - destruct Hch as [_ [_ [_ [_ [_ [_ [_ [Hsz _]]]]]]]]. lia. }
+        cbn [bind]. rewrite F3. unfold childp, plainp. cbn [snd]. rewrite Hnm.
+        destruct (is_topb s) eqn:Et; cbn [negb andb map app].
+        * destruct (IH (set_sigmap st (((msgid, ds_name (img s)), (mpos, id)) :: is_sigmap st)) mu (sd ++ [ent (id, s)]) la HXr) as [st' [E1 [E2 E3]]].
+          exists st'. split; [|split; assumption]. rewrite <- app_assoc in E1. exact E1.
+        * destruct (IH (set_sigmap st (((msgid, ds_name (img s)), (mpos, id)) :: is_sigmap st)) (mu ++ [ent (id, s)]) sd
+                       (if get_start_bit (img s) >? la then get_start_bit (img s) else la) HXr) as [st' [E1 [E2 E3]]].
+          exists st'. split; [|split; assumption]. rewrite <- app_assoc in E1. exact E1.
+  Qed.
+
+  (* ---- geometry ---- *)
+  Lemma msize_bounds : 0 <= m_size m <= 8.
+  Proof. destruct Hmm as [_ [_ [_ [_ [_ [_ [H _]]]]]]]. exact H. Qed.
+
+  Lemma tops_geo :
+    (forall t, In t sigs -> is_topb t = true -> 0 <= s_rel t /\ s_rel t + sig_size es t <= m_size m * 8) /\
+    (forall a b, In a sigs -> In b sigs -> is_topb a = true -> is_topb b = true -> a <> b ->
+       s_rel a + sig_size es a <= s_rel b \/ s_rel b + sig_size es b <= s_rel a).
+  Proof.
+    destruct Hmm as [_ [_ [_ [_ [_ [_ [_ [_ [Hlay _]]]]]]]]]. destruct Hms as [_ [_ [Htops _]]].
+    destruct (layout_pairwise es _ _ _ Htops Hlay) as [L1 L2]. split.
+    - intros t Ht Htt. apply L1. apply filter_In. auto.
+    - intros a b Ha Hb Hta Htb Hne. apply L2; try assumption; apply filter_In; auto.
+  Qed.
+
+  Lemma selw_facts : 1 <= selw <= 32 /\ s_gcount mx <= 2 ^ selw /\ 1 <= s_gcount mx /\ 1 <= s_gsize mx.
+  Proof.
+    destruct mx_top as [[_ [_ [_ [_ [_ [_ Hk]]]]]] _]. unfold is_muxb in Hmxm. destruct (s_kind mx); try discriminate.
+    destruct Hk as [[Hg1 Hg2] Hgs]. unfold selw, sel_width, calc_size_from_value.
+    destruct (s_gcount mx - 1 =? 0) eqn:E0.
+    - change (2 ^ 1) with 2. lia.
+    - replace (s_gcount mx - 1 <? 0) with false by lia.
+      assert (Hv : 0 < s_gcount mx - 1 < 2 ^ 32) by lia.
+      replace (s_gcount mx - 1 <? 2 ^ 63) with true by lia.
+      pose proof (Z.log2_nonneg (s_gcount mx - 1)). assert (Z.log2 (s_gcount mx - 1) < 32) by (apply Z.log2_lt_pow2; lia).
+      destruct (Z.log2_spec (s_gcount mx - 1) ltac:(lia)) as [_ Hup]. rewrite <- Z.add_1_r in Hup. lia.
+  Qed.
+
+  Lemma start_top : forall t, In t sigs -> is_topb t = true -> get_start_bit (img t) = s_rel t.
+  Proof.
+    intros t Ht Htt. destruct (proj1 tops_geo t Ht Htt) as [G1 G2]. pose proof msize_bounds.
+    assert (Hpos : 0 < sig_size es t).
+    { destruct Hms as [_ [_ [Htops _]]]. rewrite Forall_forall in Htops. apply (top_size_pos es t). apply Htops. apply filter_In. auto. }
+    apply (gsb _ o); try lia; unfold img; rewrite Htt; destruct (is_muxb t); try reflexivity;
+      unfold dsig_e; destruct (s_kind t); reflexivity.
+  Qed.
+
+  Lemma child_geo : forall c, In c sigs -> is_topb c = false ->
+    0 <= s_rel c /\ 0 < s_size c /\ s_rel c + s_size c <= s_gsize mx /\
+    mstart + selw + s_rel c + s_size c <= m_size m * 8 /\ 0 <= mstart.
+  Proof.
+    intros c Hc Hct. assert (Hne : c <> mx) by (intros ->; destruct mx_top as [_ H]; congruence).
+    destruct (other_sig c Hc Hne) as [_ [_ [[Ht _]|[_ Hok]]]]; [congruence|].
+    destruct Hok as [_ [_ [_ [_ [_ [_ [_ [Hsz [Hr Hend]]]]]]]]].
+    destruct mx_top as [_ Hmt]. destruct (proj1 tops_geo mx Hmx Hmt) as [G1 G2].
+    assert (Hss : sig_size es mx = s_gsize mx + selw).
+    { unfold sig_size. unfold is_muxb in Hmxm. destruct (s_kind mx); try discriminate. reflexivity. }
+    rewrite Hss in G2. unfold mstart. lia.
+  Qed.
+
+  Lemma start_child : forall c, In c sigs -> is_topb c = false -> get_start_bit (img c) = mstart + selw + s_rel c.
+  Proof.
+    intros c Hc Hct. destruct (child_geo c Hc Hct) as [G1 [G2 [G3 [G4 G5]]]]. pose proof msize_bounds. destruct selw_facts as [Hs _].
+    assert (Hne : c <> mx) by (intros ->; destruct mx_top as [_ H']; congruence).
+    destruct (other_sig c Hc Hne) as [Hnm _].
+    apply (gsb _ o); try lia; unfold img; rewrite Hnm, Hct; reflexivity.
+  Qed.
+
+  (* ---- the second loop: the plain signals are inserted at top level ---- *)
+  Definition timg (p : Z * signal) : signal := place (std_imp env msgid (fst p) (img (snd p))) (s_rel (snd p)) None [].
+  Definition mux_end : Z := mstart + selw + s_gsize mx.
+
+  Lemma sig_size_mx : sig_size es mx = s_gsize mx + selw.
+  Proof. unfold sig_size. unfold is_muxb in Hmxm. destruct (s_kind mx); try discriminate. reflexivity. Qed.
+
+  Lemma last_bound : forall Xl la, (forall p, In p Xl -> In (snd p) sigs) -> la < mux_end -> last_of la Xl < mux_end.
+  Proof.
+    induction Xl as [|p r IH]; intros la HX Hla; cbn [last_of fold_left]; [exact Hla|]. fold (last_of (if childp p then (if get_start_bit (img (snd p)) >? la then get_start_bit (img (snd p)) else la) else la) r).
+    apply IH; [intros q Hq; apply HX; right; assumption|].
+    unfold childp. destruct (is_topb (snd p)) eqn:Et; cbn [negb]; [exact Hla|].
+    rewrite (start_child (snd p) (HX p (or_introl eq_refl)) Et).
+    destruct (child_geo (snd p) (HX p (or_introl eq_refl)) Et) as [G1 [G2 [G3 _]]]. unfold mux_end in *.
+    destruct (_ >? la); lia.
+  Qed.
+
+  Definition f2 (st1 : istate) (msize last : Z) (acc : result (mstate * list (subtree * dsignal))) (p : subtree * dsignal) :=
+    let '(t, ds) := p in
+    do (ms, muxed2) <- acc;
+    let sp := get_start_bit ds in
+    if (sp >? mstart) && (sp <? last) then Ok (ms, muxed2 ++ [(t, ds)])
+    else do ms' <- (let '(st0, sigs0) := ms in do sigs' <- msg_insert (is_enums st0) msize sigs0 t sp; Ok (st0, sigs')); Ok (ms', muxed2).
+
+  Lemma plain_facts : forall t, In t sigs -> is_topb t = true -> is_muxb t = false ->
+    s_kind t = KStandard /\ sig_size es t = s_size t /\ 0 < s_size t /\ t <> mx.
+  Proof.
+    intros t Ht Htt Hnm. assert (Hne : t <> mx) by (intros ->; congruence).
+    destruct (other_sig t Ht Hne) as [_ [Hk [[_ Htop]|[Hf _]]]]; [|congruence].
+    destruct Htop as [_ [_ [_ [_ [_ [_ Hsz]]]]]]. rewrite Hk in Hsz. unfold sig_size. rewrite Hk. repeat split; try lia. assumption.
+  Qed.
+
+  Lemma loop2 : forall st1 last mu l done, last < mux_end ->
+    NoDup (map snd (done ++ l)) ->
+    (forall p, In p (done ++ l) -> In (snd p) sigs /\ is_topb (snd p) = true /\ is_muxb (snd p) = false) ->
+    fold_left (f2 st1 (m_size m) last) (map ent l) (Ok ((st1, map timg done), mu)) = Ok ((st1, map timg (done ++ l)), mu).
+  Proof.
+    intros st1 last mu l. induction l as [|p r IH]; intros done Hla Hnd HP; cbn [map fold_left]; [rewrite app_nil_r; reflexivity|].
+    destruct (HP p ltac:(apply in_or_app; right; left; reflexivity)) as [Hs [Ht Hnm]].
+    destruct (plain_facts _ Hs Ht Hnm) as [Hk [Hsz [Hpos Hne]]].
+    destruct (proj1 tops_geo _ Hs Ht) as [G1 G2]. destruct mx_top as [_ Hmt].
+    unfold f2 at 2. unfold ent at 2. cbv zeta. cbn [bind fst snd].
+    rewrite (start_top _ Hs Ht).
+    assert (Hcond : (s_rel (snd p) >? mstart) && (s_rel (snd p) <? last) = false).
+    { destruct (proj2 tops_geo (snd p) mx Hs Hmx Ht Hmt Hne) as [Hd|Hd]; try rewrite sig_size_mx in Hd; rewrite ?Hsz in Hd; unfold mux_end, mstart in *; lia. }
+    rewrite Hcond.
+    destruct (img_fields (snd p) Hs Hne) as [F1 [F2 _]].
+    rewrite msg_insert_ok_g.
+    - cbn [bind app]. replace (map timg done ++ [place (std_imp env msgid (fst p) (img (snd p))) (s_rel (snd p)) None []]) with (map timg (done ++ [p]))
+        by (rewrite map_app; reflexivity).
+      rewrite (IH (done ++ [p])); [rewrite <- app_assoc; reflexivity|assumption|rewrite <- app_assoc; assumption|rewrite <- app_assoc; assumption].
+    - cbn [s_name std_imp]. rewrite F1. intros Hin. rewrite map_map in Hin. apply in_map_iff in Hin. destruct Hin as [q [Hq Hqin]].
+      cbn [s_name timg place std_imp] in Hq.
+      destruct (HP q ltac:(apply in_or_app; left; assumption)) as [Hqs [Hqt Hqm]].
+      destruct (plain_facts _ Hqs Hqt Hqm) as [_ [_ [_ Hqne]]]. rewrite (proj1 (img_fields (snd q) Hqs Hqne)) in Hq.
+      destruct Hms as [_ [Hnm' _]]. assert (snd q = snd p) by (apply (NoDup_map_inj (fun s => clear (s_name s)) sigs); assumption).
+      rewrite map_app in Hnd. cbn [map] in Hnd. apply NoDup_remove_2 in Hnd. apply Hnd. apply in_or_app. left. rewrite <- H. apply in_map. assumption.
+    - intros x [].
+    - constructor; [intros []|constructor].
+    - assumption.
+    - unfold sig_size. cbn [s_kind std_imp s_size]. rewrite F2. assumption.
+    - unfold sig_size. cbn [s_kind std_imp s_size]. rewrite F2. rewrite Hsz in G2. assumption.
+    - intros d Hd _. apply in_map_iff in Hd. destruct Hd as [q [<- Hqin]].
+      destruct (HP q ltac:(apply in_or_app; left; assumption)) as [Hqs [Hqt Hqm]].
+      destruct (plain_facts _ Hqs Hqt Hqm) as [_ [Hqsz [_ Hqne]]].
+      assert (Hpq : snd p <> snd q).
+      { intros Heq. rewrite map_app in Hnd. cbn [map] in Hnd. apply NoDup_remove_2 in Hnd. apply Hnd. apply in_or_app. left. rewrite Heq. apply in_map. assumption. }
+      unfold sig_size, overlaps. cbn [s_kind std_imp s_size s_rel timg place]. rewrite F2, (proj1 (proj2 (img_fields (snd q) Hqs Hqne))).
+      destruct (proj2 tops_geo (snd p) (snd q) Hs Hqs Ht Hqt Hpq) as [Hd|Hd]; rewrite ?Hsz, ?Hqsz in Hd; lia.
+  Qed.
+End MuxImport.
